@@ -236,11 +236,14 @@ class RegWorld(World):
     def op_reconnect(self, op):
         self.log('reconnect')
         self.stats['fault.reconnect'] += 1
-        self.spawn(self._reconnect())
+        self.spawn(self._reconnect(op.get('how', 'shutdown')))
 
-    async def _reconnect(self):
+    async def _reconnect(self, how='shutdown'):
         if self.face.running:
-            self.app.shutdown()
+            if how == 'peer_close':
+                self.face.peer_close()          # the forwarder closes the connection
+            else:
+                self.app.shutdown()
         await self.main_task
         self.connection += 1
         self.main_task = self.spawn(self._main())
@@ -505,7 +508,8 @@ def generate(rng, seed, tier='quick'):
     if reconnect:
         # 'once per connection': only declared routes, the connection is dropped and re-established once the
         # start-up registrations are over (a shutdown in the middle of them is outside the statement)
-        ops = [{'at': 2000 + len(routes_before) * 40000 + rng.choice([0, 1, 5000]), 'op': 'reconnect'}]
+        ops = [{'at': 2000 + len(routes_before) * 40000 + rng.choice([0, 1, 5000]), 'op': 'reconnect',
+                'how': rng.choice(['shutdown', 'peer_close'])}]
         for pol in policies:
             if pol['kind'] == 'silence' or pol.get('delay_us', 0) > 30000:
                 pol.clear()
